@@ -11,8 +11,7 @@ Full-strength statement (NOT true of the code, kept visible):
 
 (J) holds (`json_roundtrip`).  (T) and (P) fail on scalar parameters (F12: they come back as length-1
 vectors — `table_roundtrip_scalar_counterexample`, `torch_roundtrip_scalar_counterexample`) and (T) fails on
-names containing `_` (F11 — `table_roundtrip_underscore_counterexample`); identifiers that pandas reads as a
-missing value are lost through CSV (F12c — `csv_na_identifier_counterexample`).  Proved instead, under the exact
+names containing `_` (F11 — `table_roundtrip_underscore_counterexample`).  Proved instead, under the exact
 decidable guards `AllVec` / `NoUnderscore`:  `table_roundtrip_partial`, `torch_roundtrip_vec`.
 `≃` is equality of python dicts: the converted container lists each individual's parameters in the order of the
 recorded shapes (`normalize`); `normalize_lookup` / `normalize_eq_of_aligned` say that this is the same dict,
@@ -31,7 +30,15 @@ variable {q : Type}
     element of an unsupported type. -/
 theorem checkVal_none_iff (v : RawVal q) :
     checkVal v = none ↔ (v = .bad ∨ v = .list [] ∨ ∃ xs, v = .list xs ∧ RawElem.bad ∈ xs) := by
-  sorry
+  cases v with
+  | num x => simp [checkVal]
+  | bad => simp [checkVal]
+  | list xs =>
+    cases xs with
+    | nil => simp [checkVal]
+    | cons x xs =>
+      simp only [checkVal, List.isEmpty_cons, Bool.false_eq_true, if_false, Option.map_eq_none_iff, mapM_elemNum_none_iff]
+      simp
 
 /-- An addition is refused exactly for: a non-string identifier, an identifier already present, a non-dict,
     an unsupported value, or shapes that differ (as a dict) from the recorded ones. -/
@@ -41,12 +48,47 @@ theorem add_rejects_iff (c : Container q) (i : RawId) (p : RawParams q) :
        (∃ d, p = .dict d ∧ ∃ kv ∈ d, checkVal kv.2 = none) ∨
        (∃ d vals sh, p = .dict d ∧ checkDict d = some vals ∧ c.shapes = some sh ∧
           dictEq sh (vals.map (fun kv => (kv.1, shapeOf kv.2))) = false)) := by
-  sorry
+  cases i with
+  | nonStr => simp [add]
+  | str s =>
+    by_cases hs : s ∈ c.ids
+    · simp [add, hs]
+    · cases p with
+      | notDict => simp [add, hs]
+      | dict d =>
+        cases hd : checkDict d with
+        | none =>
+          have := (checkDict_none_iff d).1 hd
+          simp only [add, hd]
+          simp [hs]; exact Or.inl (by simpa using this)
+        | some vals =>
+          have hn : ¬ ∃ kv ∈ d, checkVal kv.2 = none := by
+            rw [← checkDict_none_iff, hd]; simp
+          cases hsh : c.shapes with
+          | none => simp [add, hs, hd, hsh]; simpa using hn
+          | some sh =>
+            by_cases he : dictEq sh (vals.map (fun kv => (kv.1, shapeOf kv.2))) = true
+            · simp [add, hs, hd, hsh, he]; simpa using hn
+            · simp [add, hs, hd, hsh, he]
 
 /-- Every refusal is a `LeaspyIndividualParamsInputError`, and leaves no trace (the model is pure). -/
 theorem add_error_is_input (c : Container q) (i : RawId) (p : RawParams q) (e : Err)
     (h : add c i p = .error e) : e = .input := by
-  sorry
+  unfold add at h
+  split at h
+  · cases h; rfl
+  · split at h
+    · cases h; rfl
+    · split at h
+      · cases h; rfl
+      · split at h
+        · cases h; rfl
+        · split at h
+          · cases h
+          · dsimp only at h
+            split at h
+            · cases h
+            · cases h; rfl
 
 /-- An accepted addition appends the identifier and its values and touches nothing else. -/
 theorem add_ok_appends (c c' : Container q) (i : RawId) (p : RawParams q) (h : add c i p = .ok c') :
@@ -55,53 +97,94 @@ theorem add_ok_appends (c c' : Container q) (i : RawId) (p : RawParams q) (h : a
       c'.shapes = some (match c.shapes with
                         | none => vals.map (fun kv => (kv.1, shapeOf kv.2))
                         | some sh => sh) := by
-  sorry
+  unfold add at h
+  split at h
+  · cases h
+  · rename_i s
+    split at h
+    · cases h
+    · rename_i hs
+      split at h
+      · cases h
+      · rename_i d
+        split at h
+        · cases h
+        · rename_i vals hvals
+          refine ⟨s, d, vals, rfl, rfl, hvals, by simpa using hs, ?_⟩
+          split at h
+          · rename_i hsh
+            cases h; simp [hsh]
+          · rename_i sh hsh
+            dsimp only at h
+            split at h
+            · cases h; simp [hsh]
+            · cases h
 
 /-- `Consistent` (ids distinct, one dict per id, every dict carries exactly the recorded names with the
     recorded shapes, no empty vector) holds of the empty container and is preserved by every accepted addition
     of a python dict (distinct keys): every container built through the API is consistent. -/
 theorem add_preserves_consistent (c c' : Container q) (i : RawId) (d : List (Name × RawVal q))
     (hc : Consistent c) (hd : NodupKeys d) (h : add c i (.dict d) = .ok c') : Consistent c' := by
-  sorry
+  exact add_consistent c c' i d hc hd h
 
 theorem empty_consistent : Consistent (empty : Container q) := by
-  sorry
+  constructor <;> simp [empty]
 
 /-! ### JSON -/
 
 /-- JSON round trip, full strength: any non-empty container, any shapes (scalar, length-1, length-n), any names. -/
 theorem json_roundtrip (c : Container q) (h : c.shapes ≠ none) :
     (toJson c).map fromJson = .ok c := by
-  sorry
+  obtain ⟨ids, params, shapes⟩ := c
+  cases shapes with
+  | none => simp at h
+  | some sh => rfl
 
 /-- saving is refused exactly for the empty container -/
 theorem json_refuses_iff_empty (c : Container q) :
     (∃ e, toJson c = .error e) ↔ c.shapes = none := by
-  sorry
+  unfold toJson
+  cases c.shapes <;> simp
 
 theorem json_roundtrip_file (j : Json q) : toJson (fromJson j) = .ok j := by
-  sorry
+  rfl
 
 /-! ### table (F10 repaired) -/
 
 /-- F10 repaired: every consistent non-empty container — scalar parameters included — has a table form. -/
 theorem toTable_total (c : Container q) (hc : Consistent c) (h : c.shapes ≠ none) :
     ∃ t, toTable c = .ok t := by
-  sorry
+  cases hs : c.shapes with
+  | none => exact absurd hs h
+  | some sh => exact ⟨_, toTable_consistent c sh hc hs⟩
 
 /-- Table round trip under the guard `AllVec ∧ NoUnderscore`: identifiers (as strings, in order), names,
     shapes and values all come back; each dict is listed in the order of the recorded shapes. -/
 theorem table_roundtrip_partial (c : Container q) (sh : List (Name × Shape))
     (hc : Consistent c) (hs : c.shapes = some sh) (hv : AllVec sh) (hu : NoUnderscore sh) :
     (toTable c >>= fromTable) = .ok (normalize sh c) := by
-  sorry
+  exact table_roundtrip c sh hc hs hv hu
 
-/-- CSV round trip under the same guard, for identifiers pandas does not read as a missing value. -/
+/-- CSV round trip (F12c repaired) under the same guard, for every identifier. -/
 theorem csv_roundtrip_partial (c : Container q) (sh : List (Name × Shape))
-    (hc : Consistent c) (hs : c.shapes = some sh) (hv : AllVec sh) (hu : NoUnderscore sh)
-    (hid : ∀ s ∈ c.ids, s ∉ naStrings) :
-    (toTable c >>= fun t => fromTable (csvRead t)) = .ok (normalize sh c) := by
-  sorry
+    (hc : Consistent c) (hs : c.shapes = some sh) (hv : AllVec sh) (hu : NoUnderscore sh) :
+    (saveCsv c >>= loadCsv) = .ok (normalize sh c) := by
+  have : saveCsv c = toTable c := by simp [saveCsv, hs]
+  rw [this]
+  exact table_roundtrip c sh hc hs hv hu
+
+/-- saving as CSV is refused (with an input error) exactly for the empty container -/
+theorem csv_refuses_iff_empty (c : Container q) (hc : Consistent c) :
+    saveCsv c = .error .input ↔ c.shapes = none := by
+  constructor
+  · intro h
+    cases hs : c.shapes with
+    | none => rfl
+    | some sh =>
+      obtain ⟨t, ht⟩ := toTable_total c hc (by simp [hs])
+      simp [saveCsv, hs, ht] at h
+  · intro h
+    simp [saveCsv, h]
 
 /-! ### tensors -/
 
@@ -110,14 +193,14 @@ theorem csv_roundtrip_partial (c : Container q) (sh : List (Name × Shape))
 theorem torch_roundtrip_vec (rnd : q → q) (c : Container q) (sh : List (Name × Shape))
     (hc : Consistent c) (hs : c.shapes = some sh) (hv : AllVec sh) :
     (toTorch rnd c >>= fun it => fromTorch (it.1.map RawId.str) it.2) = .ok (mapVals rnd (normalize sh c)) := by
-  sorry
+  exact torch_roundtrip rnd c sh hc hs hv
 
 /-- … hence exactly, when the values are single-precision numbers already. -/
 theorem torch_roundtrip_vec_exact (rnd : q → q) (c : Container q) (sh : List (Name × Shape))
     (hc : Consistent c) (hs : c.shapes = some sh) (hv : AllVec sh)
     (hr : ∀ ip ∈ c.params, ∀ kv ∈ ip.2, mapVal rnd kv.2 = kv.2) :
     (toTorch rnd c >>= fun it => fromTorch (it.1.map RawId.str) it.2) = .ok (normalize sh c) := by
-  sorry
+  rw [torch_roundtrip rnd c sh hc hs hv, mapVals_normalize_eq rnd c sh hr]
 
 /-! ### what `normalize` is -/
 
@@ -127,14 +210,22 @@ theorem normalize_lookup (c : Container q) (sh : List (Name × Shape)) (hn : Nod
     (normalize sh c).ids = c.ids ∧ (normalize sh c).shapes = c.shapes ∧
     (normalize sh c).params.map (·.1) = c.params.map (·.1) ∧
     ∀ i d, (i, d) ∈ c.params → ∀ ns ∈ sh, (reorder sh d).lookup ns.1 = d.lookup ns.1 := by
-  sorry
+  have _ := hn
+  refine ⟨rfl, rfl, by simp [normalize, List.map_map, Function.comp_def], ?_⟩
+  intro i d _ ns hns
+  rw [lookup_reorder, if_pos (List.mem_map.2 ⟨ns, hns, rfl⟩)]
 
 /-- … and literally the same value when each individual's dict lists its keys in the recorded order
     (always the case for containers made by `from_pytorch`, `from_dataframe`, the personalisation algorithms). -/
 theorem normalize_eq_of_aligned (c : Container q) (sh : List (Name × Shape)) (hn : NodupKeys sh)
     (ha : ∀ ip ∈ c.params, ip.2.map (fun kv => (kv.1, shapeOf kv.2)) = sh) :
     normalize sh c = c := by
-  sorry
+  obtain ⟨ids, params, shapes⟩ := c
+  simp only [normalize, Container.mk.injEq, true_and, and_true]
+  have : ∀ ip ∈ params, (fun ip : String × List (Name × Val q) => (ip.1, reorder sh ip.2)) ip = id ip := by
+    intro ip hip
+    simp [reorder_of_aligned sh ip.2 hn (ha ip hip)]
+  rw [List.map_congr_left this]; simp
 
 /-! ### refutations of the full-strength statement (witnesses; `Int` values) -/
 
@@ -169,12 +260,6 @@ theorem table_roundtrip_underscore_counterexample_merge :
       = .ok { ids := ["a"], params := [("a", [("a".toList, .vec [1, 3, 2, 1, 3])])], shapes := some [("a".toList, [5])] }
     ∧ (mk [(.str "a", .dict [("a".toList, .list [.num 1]), ("a_b".toList, .list [.num 3, .num 4])])] >>= toTable >>= fromTable)
       = .error .attr := by
-  decide +kernel
-
-/-- F12c: the identifier `"NA"` does not survive the CSV file. -/
-theorem csv_na_identifier_counterexample :
-    (mk [(.str "NA", .dict [("tau".toList, .list [.num 1])])] >>= toTable >>= fun t => fromTable (csvRead t))
-      = .error .input := by
   decide +kernel
 
 /-! ### non-vacuity -/
